@@ -229,7 +229,9 @@ Handle(cl, p) ==
                   full == ~dup /\ Cardinality(cl.sids) >= Cap
                   c1 == IF dup \/ full THEN cl ELSE [cl EXCEPT !.sids = @ \cup {p.id}]
                   r == QueueCtl(c1, "PUBREC", p.id, IF full THEN 147 ELSE 0)
-              IN IF r[2] # "none" THEN r
+              IN \* the identifier is recorded only once the PUBREC is queued (defect D17, repaired;
+                 \* deviation "sid_before_queue" is the code as it was)
+                 IF r[2] # "none" THEN (IF "sid_before_queue" \in Dev THEN r ELSE << cl, r[2] >>)
                  ELSE IF dup \/ full THEN r ELSE << r[1], "msg" >>
     [] p.t = "DISCONNECT" -> << cl, "Disconnected" >>
     [] p.t = "PINGRESP" -> << cl, "none" >>
@@ -314,6 +316,13 @@ Consumed(oo, p) ==
        ELSE IF p.t = "PUBCOMP" /\ r.ph # "rec" THEN oo
        ELSE [oo EXCEPT !.ops[m].ph = "done"]
 
+
+\* inbound QoS 2: identifiers whose message was handed to the application and not yet released by PUBREL
+Got2(oo, p, cl2) ==
+  IF p.t = "PUBLISH" /\ p.q = 2 /\ cl2.pc = Idle /\ cl2.last.k = "ok" /\ cl2.last.v = "msg"
+  THEN [oo EXCEPT !.got2 = @ \cup {p.id}]
+  ELSE IF p.t = "PUBREL" THEN [oo EXCEPT !.got2 = @ \ {p.id}]
+  ELSE oo
 
 \* after every step: operations whose packet sits in the retained list are accepted (exactly the
 \* enqueue block of publish/subscribe/unsubscribe was executed); a returned handle is remembered
@@ -481,7 +490,7 @@ IoRead(p) ==
   /\ c.pc.t = "ar" /\ n.b2c # << >> /\ p = Head(n.b2c) /\ AckConsistent(p)
   /\ /\ c' = AfterPacket(c, c.pc.op, p)
      /\ n' = [n EXCEPT !.b2c = Tail(@)]
-     /\ o' = Track(Consumed(o, p), c')
+     /\ o' = Track(Got2(Consumed(o, p), p, c'), c')
      /\ hist' = Log("r", p)
   /\ UNCHANGED b
 
@@ -531,7 +540,7 @@ ConnAck(sp, rm) ==
                        !.un = IF sp THEN b.q2 ELSE {},
                        !.q2 = IF sp THEN @ ELSE {}, !.inq = IF sp THEN @ ELSE {},
                        !.over = FALSE, !.overreplay = FALSE]
-     /\ o' = Track(IF sp THEN o ELSE [o EXCEPT !.epoch = @ + 1], c')
+     /\ o' = Track(IF sp THEN o ELSE [o EXCEPT !.epoch = @ + 1, !.got2 = {}], c')
   /\ UNCHANGED n
 
 \* ... or a success CONNACK that the client must refuse for its properties; for the broker the session
@@ -546,7 +555,7 @@ ConnAckBad(sp) ==
                        !.un = IF sp THEN b.q2 ELSE {},
                        !.q2 = IF sp THEN @ ELSE {}, !.inq = IF sp THEN @ ELSE {},
                        !.over = FALSE, !.overreplay = FALSE]
-     /\ o' = Track(IF sp THEN o ELSE [o EXCEPT !.epoch = @ + 1], c')
+     /\ o' = Track(IF sp THEN o ELSE [o EXCEPT !.epoch = @ + 1, !.got2 = {}], c')
   /\ n' = [n EXCEPT !.faults = @ + 1]
 
 ConnOther(p) ==
@@ -709,7 +718,7 @@ Init ==
           over |-> FALSE, overreplay |-> FALSE]
   /\ o = [ops |-> << >>, q0 |-> 0, epoch |-> 0, recn |-> 0, twice |-> FALSE, afterack |-> FALSE,
           wrongdup |-> FALSE, idclash |-> FALSE, stale |-> FALSE, order |-> FALSE, newfirst |-> FALSE,
-          relbad |-> FALSE, relorder |-> FALSE]
+          relbad |-> FALSE, relorder |-> FALSE, got2 |-> {}]
   /\ hist = << >>
 
 Ids == 1..IdMax
